@@ -201,7 +201,12 @@ func (e *Engine) constVal(c *ssa.Const) Value {
 			f, _ := constant.Float64Val(c.Value)
 			return FloatVal{f}
 		}
-		i, _ := constant.Int64Val(c.Value)
+		i, exact := constant.Int64Val(c.Value)
+		if !exact {
+			// e.g. math.MaxUint64: the engine's integers are int64; computing on
+			// with a truncated value would silently go wrong
+			unsupported("integer constant %s is outside the integer range of the engine", c.Value.String())
+		}
 		return mkInt(i)
 	case constant.Float:
 		f, _ := constant.Float64Val(c.Value)
